@@ -60,13 +60,14 @@ class Concretize(Exception):
 
 
 class Frame:
-    __slots__ = ('fn', 'fid', 'dst', 'ret_bb')
+    __slots__ = ('fn', 'fid', 'dst', 'ret_bb', 'apply')
 
-    def __init__(s, fn, fid, dst, ret_bb):
+    def __init__(s, fn, fid, dst, ret_bb, apply=None):
         s.fn = fn
         s.fid = fid
         s.dst = dst
         s.ret_bb = ret_bb
+        s.apply = apply      # name of the lemma function being applied (DESIGN 1.1(h)), or None
 
 
 class Path:
@@ -596,6 +597,17 @@ class Machine:
         if m:
             recv, trait, f = m.group(1), m.group(2).split('::')[-1], m.group(3)
             return s.scalar_method(p, recv, trait, f, a)
+        m = re.match(r'^<(\w+) as std::ops::(Add|Sub|Mul|Div|Rem|Neg)(?:<\w+>)?>::\w+$', fname)
+        if m and (m.group(1) in INT_BITS or m.group(1) in FLOATS):
+            ty, op = m.group(1), m.group(2)
+            if op == 'Neg':
+                x = a[0][0]
+                if ty in FLOATS:
+                    return [-float(x)] if (s.mode == 'CONC' and not is_sym(x)) else [neg(x)]
+                return [neg(x, 'Int')] if is_sym(x) else [wrap_int(-int(x), ty)]
+            if ty in FLOATS:
+                return [s.float_bin(op, a[0][0], a[1][0], ty)]
+            return [s.int_bin(op, a[0][0], a[1][0], ty)]
         m = re.match(r'^(?:std::|core::)?(f64|f32)::<impl (f64|f32)>::(\w+)$', fname)
         if m:
             return s.scalar_method(p, m.group(1), 'Float', m.group(3), a)
@@ -722,6 +734,41 @@ class Machine:
     def marker(s, p, fname, a):
         base = fname.split('::<')[0]
         conc = s.mode == 'CONC'
+        lemma = None
+        for fr in p.stack:
+            if fr.apply:
+                lemma = fr.apply
+        if lemma and not conc and base in ('vassume', 'vassume_eq', 'vassert', 'vassert_eq', 'vlemma', 'vlemma_eq', 'vcover', 'vmust_not_reach'):
+            # Applying a lemma function to the caller's terms: its assumptions are proof obligations
+            # here, its conclusions (proved once for all reals in the lemma's own harness run) are assumed.
+            if base == 'vassume':
+                c = a[0][0]
+                oid = s.count(p, 'apply:%s:pre' % lemma)
+                s.obligations.append({'kind': 'bool', 'id': oid, 'leaf': 0, 'pc': tuple(p.pc), 'cond': c, 'path': p.pid, 'lemma': True})
+                if c is not True:
+                    p.pc.append(c)
+                return []
+            if base == 'vassume_eq':
+                oid = s.count(p, 'apply:%s:pre' % lemma)
+                for i, (x, y) in enumerate(zip(a[0], a[1])):
+                    s.obligations.append({'kind': 'eq', 'id': oid, 'leaf': i, 'pc': tuple(p.pc), 'lhs': x, 'rhs': y, 'path': p.pid, 'lemma': True})
+                for x, y in zip(a[0], a[1]):
+                    c = cmp('=', x, y)
+                    if c is not True:
+                        p.pc.append(c)
+                return []
+            if base in ('vassert', 'vlemma'):
+                c = a[1][0]
+                if c is not True:
+                    p.pc.append(c)
+                return []
+            if base in ('vassert_eq', 'vlemma_eq'):
+                for x, y in zip(a[1], a[2]):
+                    c = cmp('=', x, y)
+                    if c is not True:
+                        p.pc.append(c)
+                return []
+            return []
         if base == 'vassume':
             c = a[0][0]
             if conc:
@@ -1080,7 +1127,8 @@ class Machine:
                 p.nfid += 1
                 for loc, vals in zip(callee.params, a):
                     p.mem[(fid, loc)] = list(vals)
-                p.stack = p.stack + [Frame(callee, fid, dst, ret_bb)]
+                cb = callee.name.split('::')[-1]
+                p.stack = p.stack + [Frame(callee, fid, dst, ret_bb, apply=cb if '_lemma_' in cb else None)]
                 if len(p.stack) > 40:
                     raise Fuel('call depth')
                 return 0
